@@ -7,6 +7,7 @@
 package readersim
 
 import (
+	"bytes"
 	"context"
 	"encoding/json"
 	"errors"
@@ -335,6 +336,7 @@ func tmpEntries() []string {
 }
 
 func runCase(c *Case) (o outcome) {
+	compkit.Journal(c)
 	defer func() {
 		if e := recover(); e != nil {
 			o.class, o.detail = "reader-panic", fmt.Sprint(e)
@@ -426,7 +428,7 @@ func runCase(c *Case) (o outcome) {
 		upstream = append(upstream, s)
 		want = &spec.Val{T: t, Rows: s.rows, Ordered: true}
 		r = sliceio.NewClosingReader(s)
-	case c.Reader == "frame" || c.Reader == "taskbuf":
+	case c.Reader == "frame" || c.Reader == "taskbuf" || c.Reader == "codec":
 		s, t := mk(0)
 		outT = t
 		want = &spec.Val{T: t, Rows: s.rows, Ordered: true}
@@ -442,6 +444,31 @@ func runCase(c *Case) (o outcome) {
 		}
 		if c.Reader == "frame" {
 			r = sliceio.FrameReader(mkFrame(s.rows))
+		} else if c.Reader == "codec" {
+			// Encode the rows in batches cut by the chunk script (sizes grow and
+			// shrink), decode them through the stream decoder.
+			var buf bytes.Buffer
+			enc := sliceio.NewEncodingWriter(&buf)
+			pos, k := 0, 0
+			for pos < len(s.rows) {
+				n := 1
+				if len(s.src.Chunks) > 0 {
+					n = s.src.Chunks[k%len(s.src.Chunks)]
+					k++
+				}
+				if n == 0 {
+					n = 1
+				}
+				if n > len(s.rows)-pos {
+					n = len(s.rows) - pos
+				}
+				if err := enc.Write(ctx, mkFrame(s.rows[pos:pos+n])); err != nil {
+					o.class, o.detail = "encode-error", err.Error()
+					return
+				}
+				pos += n
+			}
+			r = sliceio.NewDecodingReader(&buf)
 		} else {
 			// Cut the rows into frames according to the chunk script.
 			var frames []frame.Frame
@@ -671,7 +698,7 @@ func genCase(r compkit.Rand, mode string) *Case {
 		}
 		return c
 	}
-	readers := []string{"op:map", "op:filter", "op:flatmap", "op:head", "op:fold", "op:writerfunc", "op:cogroup", "op:reshuffle", "multi", "execmulti", "frame", "closing", "scanner", "taskbuf"}
+	readers := []string{"op:map", "op:filter", "op:flatmap", "op:head", "op:fold", "op:writerfunc", "op:cogroup", "op:reshuffle", "multi", "execmulti", "frame", "closing", "scanner", "taskbuf", "codec"}
 	c.Reader = readers[r.Intn(len(readers))]
 	switch c.Reader {
 	case "op:map":
@@ -815,7 +842,7 @@ func TestBatch(t *testing.T) {
 		rule = "sortio.SortReader, NewMergeReader and Reduce over simulated upstream readers (arbitrary chunking, empty non-EOF reads for the sorting reader only, rows-with-EOF, an injected read error at the k-th read), spill targets from 1 byte up, per-process vector size / sort canary / spill batch sizes from {1..256} (environment), 0..5 input streams some empty, seeded consumer destination sizes; oracles: sort output == input multiset in non-decreasing key order; merge == sorted union; reduce-merge == one row per key with the fold; an injected read error is returned by the constructor or a Read and never replaced by EOF; no spill directory remains once the constructor has returned; distinct = distinct case hashes"
 	}
 	res := &compkit.Result{Property: prop, Engine: "comp-readersim", Probes: map[string]int{}, Faults: map[string]int{}, Rule: rule,
-		Stubs: []string{"real: operator Reader implementations, sliceio/sortio readers, exec multiReader and taskBuffer reader, frame, spill files on tmpfs", "stub: upstream readers and the consumer (simulated); clock not involved"},
+		Stubs: []string{"real: operator Reader implementations, sliceio/sortio readers, the stream encoder+decoder pair, exec multiReader and taskBuffer reader, frame, spill files on tmpfs", "stub: upstream readers and the consumer (simulated); clock not involved"},
 		Extra: map[string]any{"knobs": map[string]string{"VERIF_CHUNK": os.Getenv("VERIF_CHUNK"), "VERIF_SORT_CANARY": os.Getenv("VERIF_SORT_CANARY")}}}
 	distinct := map[string]bool{}
 	seen := map[string]bool{}
